@@ -107,7 +107,7 @@ def handle (j : Json) : Option Json := do
         match chain model file code n with
         | some v => pvalJ v
         | none => Json.null])
-      let controls := roles.filterMap (fun (n, r) => if r = .control then some n else none)
+      let controls := controlsOf ((inputs.zip flags).map (fun (d, f) => ⟨d.name, f.1, f.2, d.fixed⟩))
       pure (Json.mkObj [
         ("roles", Json.arr (roles.map (fun (n, r) => Json.arr #[Json.str n, roleJ r])).toArray),
         ("sim_roles", Json.arr (simRoles.map (fun (n, r) => Json.arr #[Json.str n, roleJ r])).toArray),
@@ -118,6 +118,15 @@ def handle (j : Json) : Option Json := do
         ("seed", Json.arr seedJ.toArray),
         ("parameters", Json.arr parJ.toArray),
         ("outputs", strsJ (outputsOf declared controls))])
+  | "outputs" =>
+      let declared ← getStrList j "declared"
+      let inputs ← (← getArr j "inputs").mapM (fun i => do
+        pure (⟨← getStr i "name", (getBool i "delay").getD false, (getBool i "lookup").getD false,
+               ← getBool i "fixed"⟩ : InputRec))
+      pure (Json.mkObj [
+        ("outputs", strsJ (exportedOf declared inputs)),
+        ("controls", strsJ (controlsOf inputs)),
+        ("constants", strsJ (roleListOf .constantInput inputs))])
   | "sim" =>
       let (envs, _, _, _) ← (getObj j "params").bind envsOf
       let env := envs 0
